@@ -22,6 +22,11 @@ type seed struct {
 }
 
 var seeds = []seed{
+	{"SetCopyOnWrite(false) clears the flags of containers that are still shared", "A4.clear", "roaring.go", "func (rb *Bitmap) SetCopyOnWrite(val bool) {\n", "func (rb *Bitmap) SetCopyOnWrite(val bool) {\n\tif !val {\n\t\tfor i := range rb.highlowcontainer.needCopyOnWrite {\n\t\t\trb.highlowcontainer.needCopyOnWrite[i] = false\n\t\t}\n\t}\n", "SetCopyOnWrite|flag cleared"},
+	{"a 64-bit in-place operation removes a bucket without shortening its cached length", "LEN1", "roaring64/roaring64.go", "\t\t\t\t\trb.highlowcontainer.removeAtIndex(pos1)\n\t\t\t\t\tlength1--\n", "\t\t\t\t\trb.highlowcontainer.removeAtIndex(pos1)\n", "removeAtIndex"},
+	{"roaring64 FromUnsafeBytes files a bucket at -pos-1 whatever the search said", "F5.neg", "roaring64/roaring64.go", "\t\trb.highlowcontainer.appendContainer(key, bucket, false)\n", "\t\tpos := rb.highlowcontainer.getIndex(key)\n\t\trb.highlowcontainer.insertNewKeyValueAt(-pos-1, key, bucket)\n", "insertion at -i-1"},
+	{"a 64-bit merge loop advances the receiver cursor on the argument table", "IDX1", "roaring64/roaring64.go", "\t\t\t\t\tpos1 = rb.highlowcontainer.advanceUntil(s2, pos1)\n", "\t\t\t\t\tpos1 = x2.highlowcontainer.advanceUntil(s2, pos1)\n", "cursor pos1"},
+	{"32-bit BSI tests the bits of a signed value with > 0", "U9", "BitSliceIndexing/bsi.go", "\t\tif uint64(value)&(1<<uint64(i)) > 0 {\n", "\t\tif value&(1<<uint(i)) > 0 {\n", "signed bit test"},
 	{"CheckedAdd writes the container it read before the gate", "A2.stale", "roaring.go", "\t\tC := rb.highlowcontainer.getWritableContainerAtIndex(i)\n\t\toldcard := C.getCardinality()\n\t\tC = C.iaddReturnMinimized(lowbits(x))\n", "\t\tC := rb.highlowcontainer.getContainerAtIndex(i)\n\t\toldcard := C.getCardinality()\n\t\trb.highlowcontainer.getWritableContainerAtIndex(i)\n\t\tC = C.iaddReturnMinimized(lowbits(x))\n", "CheckedAdd|gate getWritableContainerAtIndex"},
 	{"bitmapContainer.validate trusts the cardinality field of a full container", "V3", "bitmapcontainer.go", "func (bc *bitmapContainer) validate() error {\n", "func (bc *bitmapContainer) validate() error {\n\tif bc.isFull() && len(bc.bitmap) == maxCapacity/64 {\n\t\treturn nil\n\t}\n", "bitmapContainer).validate|no early success"},
 	{"readFrom multiplies the run count in 16 bits", "U1", "roaringarray.go", "\t\t\tbuf, err := stream.Next(int(nr) * 4)\n", "\t\t\tbuf, err := stream.Next(int(nr * 4))\n", "readFrom|<uint16> * 4"},
